@@ -9,6 +9,7 @@
      [k |-> "raised", exc]                  an exception escaped from layer.handle_event (ConnectionHandler logs
                                             "mitmproxy has crashed!" and carries on); C03 says nothing about it, so
                                             it is no clause: what it does to the flows shows in the records below
+                                            (the end clauses carry the exception class in their signature)
      [k |-> "quiescent", flows]             the client connection and all server connections are closed and no hook
                                             is pending; flows[i] = [live, kind] for flow i, kind in
                                             {"plain", "connect", "upgrade"}
@@ -19,7 +20,8 @@ EXTENDS Verif
 Lifecycle == {"requestheaders", "request", "responseheaders", "response", "error"}
 
 MonInit == [bad |-> <<>>, wit |-> {},
-            fl  |-> <<>>]      \* per flow number: sequence of lifecycle hook names fired so far
+            fl  |-> <<>>,      \* per flow number: sequence of lifecycle hook names fired so far
+            exc |-> "none"]    \* class of the last exception that escaped from the layer (signature of end clauses)
 
 Fired(m, f) == IF f <= Len(m.fl) THEN ToSet(m.fl[f]) ELSE {}
 
@@ -45,10 +47,11 @@ QuiescentClause(m, ev) ==
   IN IF none # {} THEN
        LET i == CHOOSE j \in none : \A k \in none : j <= k
        IN <<"C03.no_outcome", IF "responseheaders" \in Fired(m, i) THEN "after_responseheaders"
-                              ELSE IF "request" \in Fired(m, i) THEN "after_request" ELSE "after_requestheaders">>
+                              ELSE IF "request" \in Fired(m, i) THEN "after_request" ELSE "after_requestheaders",
+                              m.exc>>
      ELSE IF lv # {} THEN
        LET i == CHOOSE j \in lv : \A k \in lv : j <= k
-       IN <<"C03.still_live", IF "response" \in Fired(m, i) THEN "response" ELSE "error">>
+       IN <<"C03.still_live", IF "response" \in Fired(m, i) THEN "response" ELSE "error", m.exc>>
      ELSE <<>>
 
 HookWit(m, ev) ==
@@ -69,7 +72,7 @@ MonStep(m, ev) ==
          ELSE [m EXCEPT !.bad = HookClause(m, ev),
                         !.fl = IF ev.name \in Lifecycle THEN [fl1 EXCEPT ![f] = Append(@, ev.name)] ELSE fl1,
                         !.wit = @ \cup HookWit(m, ev)]
-    [] ev.k = "raised" -> [m EXCEPT !.wit = @ \cup {"raised"}]
+    [] ev.k = "raised" -> [m EXCEPT !.exc = ev.exc, !.wit = @ \cup {"raised"}]
     [] ev.k = "quiescent" ->
          [m EXCEPT !.bad = QuiescentClause(m, ev),
                    !.wit = @ \cup {"quiescent"}
